@@ -51,7 +51,7 @@ void Exec::op_stmt(const Json& o){
   MVec ma=c.mv[A],mb=c.mv[B];
   // -(std::move(x)+b) with x on a user buffer computes inside that buffer (the temporary inherits it by move): legal, but the
   // model does not follow intermediate temporaries, so the form is run with an lvalue operand instead
-  if(s.expr==E_NESTED && s.nest==8 && ma.kind==K_EXT){ s.nest=3; s.a.cat=CAT_LVALUE; }
+  if(s.expr==E_NESTED && s.nest==8 && (ma.kind==K_EXT||A==B||(s.how!=HOW_CTOR&&A==T))){ s.nest=3; s.a.cat=CAT_LVALUE; }   // nor may the consumed vector be named twice in one statement
   std::vector<double> av=mvals(c,A),bv=mvals(c,B);
   bool binary=!is_unary(s.expr);
   bool operand_mismatch=binary && ma.dim!=mb.dim;
